@@ -8,7 +8,7 @@
         "digraph " ++ quoted name ++ " {\n" ++ body ++ "}\n"
      where body is the rendering of the statement list [dot_stmts] (one node statement per node, one edge
      statement per edge, in order: C18_dot_nodes_once / C18_dot_edges_once) and no statement carries an
-     attribute of unsupported type, or the call panicked (status 2) and some statement carries an attribute
+     attribute of unsupported type, or the call panicked (status 2, no output bytes) and some statement carries an attribute
      whose value has an unsupported type: the call panics EXACTLY when such an attribute is present.
    Closed under the global context. *)
 From MM Require Import Base.Num Base.GCGraph Model.Dot Proofs.Dot Check.C18 Proofs.CheckBase Proofs.CheckC18Base.
@@ -28,10 +28,10 @@ Definition dotstring_case_ok (rest : list Z) : Prop :=
     let s := NsZ sz in                         (* the argument, as bytes *)
     obs = ZsN (dot_string s) /\ unescape (NsZ obs) = Some s.
 
-Theorem check_dotstring_sound : forall l c tag pos diag r,
-  check_dotstring l = Some (verdict c tag pos diag, r) -> c = 0 \/ c = 1 -> c = 0 /\ r = [] /\ dotstring_case_ok l.
+Theorem check_dotstring_sound : forall l c v r,
+  check_dotstring l = Some (c :: v, r) -> c = 0 \/ c = 1 -> c = 0 /\ r = [] /\ dotstring_case_ok l.
 Proof.
-  intros l c tag pos diag r H Hc. unfold check_dotstring in H. pinv H. subst.
+  intros l c v r H Hc. unfold check_dotstring in H. pinv H. subst.
   cbv zeta in Ev. apply ok_or_mismatch in Ev; [|exact Hc]. destruct Ev as [W ->]. ff_split W.
   match goal with H : (_ =? _) = true |- _ => apply Z.eqb_eq in H; subst end.
   match goal with H : obytes_eqb _ _ = true |- _ => apply obytes_eqb_some in H; destruct H as (b & Eb & Eo) end.
@@ -131,12 +131,12 @@ Definition sprint_case_ok (rest : list Z) : Prop :=
     ((status = 0 /\ (forall s a, In s stmts -> In a (stmt_attrs s) -> snd a <> AOther) /\
       exists body, render_all stmts = Some body /\
         obs = ZsN ([100; 105; 103; 114; 97; 112; 104; 32] ++ dot_string (d_name d) ++ [32; 123; 10] ++ body ++ [125; 10])%N)
-     \/ (status = 2 /\ exists s a, In s stmts /\ In a (stmt_attrs s) /\ snd a = AOther)).
+     \/ (status = 2 /\ obs = [] /\ exists s a, In s stmts /\ In a (stmt_attrs s) /\ snd a = AOther)).
 
-Theorem check_sprint_sound : forall l c tag pos diag r,
-  check_sprint l = Some (verdict c tag pos diag, r) -> c = 0 \/ c = 1 -> c = 0 /\ r = [] /\ sprint_case_ok l.
+Theorem check_sprint_sound : forall l c v r,
+  check_sprint l = Some (c :: v, r) -> c = 0 \/ c = 1 -> c = 0 /\ r = [] /\ sprint_case_ok l.
 Proof.
-  intros l c tag pos diag r H Hc. unfold check_sprint in H. pinv H. subst.
+  intros l c v r H Hc. unfold check_sprint in H. pinv H. subst.
   destruct (g_wfb a) eqn:Ewf; cbn [negb] in Ev; [|rejected Ev]. apply g_wfb_spec in Ewf.
   cbv zeta in Ev. fold (sprint_opts a0 a1 a2 a3 a4 a5 a6) in Ev.
   apply ok_or_mismatch in Ev; [|exact Hc]. destruct Ev as [W ->].
@@ -153,6 +153,7 @@ Proof.
     exists body. split; [exact R|exact Eo].
   - exists 2, a8. split; [unfold parse_sprint; prebuild|]. split; [exact Ewf|]. cbv zeta. fold d.
     split; [apply dot_nodes_once|]. split; [apply dot_edges_once|]. right. split; [reflexivity|].
+    split; [match goal with H : (length _ =? 0)%nat = true |- _ => apply Nat.eqb_eq in H; apply length_zero_iff_nil; exact H end|].
     unfold dot_sprint in ES. destruct (render_all (dot_stmts d (g_out a) (g_n a))) eqn:R; [discriminate|].
     apply render_all_None in R. destruct R as (s & I & R). apply render_stmt_None in R. destruct R as (x & Ix & Ex). eauto.
 Qed.
